@@ -52,7 +52,7 @@ fn cases() -> impl Strategy<Value = Case> {
             let b = related(&a, &extra, k, comb);
             Case::Unify { a: vec![a], b: vec![b] }
         }),
-        3 => (list(1..4), one_of(&[".b", ".c", "a", ".x", "#i", ":hover", "[k]", ".b.c", "%p"]), list(1..3)).prop_map(|(s, x, y)| Case::Extend { s, x, y }),
+        3 => (list(1..4), one_of(&[".b", ".c", "a", ".x", "#i", ":hover", "[k]", ".b.c", "%p", ".c, .x", ".x, .c", ".b, .c", ".d, .b, .zz", "a, .y", ".zz, .b"]), list(1..3)).prop_map(|(s, x, y)| Case::Extend { s, x, y }),
         2 => (list(1..4), list(1..3)).prop_map(|(s, y)| Case::Replace { s, y }),
         3 => (list(1..3), list(1..3)).prop_map(|(a, b)| Case::Nest { a, b }),
         3 => (list(1..3), one_of(&[".c", "-x", ":hover", "[k]", ".c.d", "__e", ":not(.q)"])).prop_map(|(a, suffix)| Case::Append { a, suffix }),
@@ -86,7 +86,7 @@ impl Prop for C24 {
         C24
     }
     fn rule(&self) -> String {
-        "selector lists as for C23. unify(a, b) for random pairs and for pairs built to overlap (b shares a's trailing compounds, with extra classes and an extra leading ancestor/parent/sibling): when the result is not null, a and b must each be a superselector of every complex selector in it (judged with both inputs in one combinator family, hierarchical or sibling: is-superselector is syntactic and does not relate the two). extend(s, x, y): s's complex selectors must occur in the result in order. replace(s, .fresh, y) must equal parse(s). nest(a, b) must equal the selector emitted for `a { b { x: y } }`, append(a, suffix) the one for `a { &suffix { x: y } }` for suffixes .c, -x, :hover, [k], .c.d, __e, :not(.q); an error on both sides is agreement. Selectors are compared after the independent canonicaliser. Non-trivial: unify with a non-null result, or any other law on a list with >= 2 compounds in some member; distinct by case".into()
+        "selector lists as for C23. unify(a, b) for random pairs and for pairs built to overlap (b shares a's trailing compounds, with extra classes and an extra leading ancestor/parent/sibling): when the result is not null, a and b must each be a superselector of every complex selector in it (judged with both inputs in one combinator family, hierarchical or sibling: is-superselector is syntactic and does not relate the two). extend(s, x, y), x a simple selector, a compound or a list of 2..3 extendees: s's complex selectors must occur in the result in order. replace(s, .fresh, y) must equal parse(s). nest(a, b) must equal the selector emitted for `a { b { x: y } }`, append(a, suffix) the one for `a { &suffix { x: y } }` for suffixes .c, -x, :hover, [k], .c.d, __e, :not(.q); an error on both sides is agreement. Selectors are compared after the independent canonicaliser. Non-trivial: unify with a non-null result, or any other law on a list with >= 2 compounds in some member; distinct by case".into()
     }
     fn phases(&self, tier: Tier) -> Vec<Phase<Case>> {
         vec![Phase::random("algebra", cases(), tier.pick(40_000, 2_000_000))]
